@@ -361,7 +361,8 @@ def base_files(rng: random.Random, workdir: Path) -> List[Tuple[bytes, int, int]
             mask = (1 << w) - 1
             calls = [{"op": "data", "words": [rng.randrange(1 << w) for _ in range(6)]},
                      {"op": "seg", "s": 0, "l": 6, "ds": 0, "dl": 4},
-                     {"op": "seg", "s": rng.choice([8, 64, 1 << 14]), "l": rng.choice([2, 1004]), "ds": 4, "dl": 2}]
+                     {"op": "seg", "s": rng.choice([8, 64, 1 << 14]), "l": rng.choice([2, 1004]), "ds": 4, "dl": 2},
+                     {"op": "seg", "s": 1 << 20, "l": 4, "ds": 6, "dl": 0}]          # a segment of zeros only
             obs = perform_calls(calls, w, version, rng.randrange(10), workdir)
             if obs["final"] == "ok":
                 out.append(((workdir / "f.fjm").read_bytes(), w, version))
